@@ -1211,6 +1211,12 @@ int _vnadata_load_touchstone(vnadata_internal_t *vdip, FILE *fp,
     for (;;) {
 	switch (tps.tps_token) {
 	case T_KW_NUMBER_OF_PORTS:
+	    if (tps.tps_ports != -1) {
+		_vnadata_error(vdip, VNAERR_SYNTAX, "%s (line %d) error: "
+			"[Number of Ports] may appear only once",
+		    tps.tps_filename, tps.tps_line);
+		goto out;
+	    }
 	    if (next_token(&tps, F_INT) == -1) {
 		goto out;
 	    }
@@ -1297,6 +1303,12 @@ int _vnadata_load_touchstone(vnadata_internal_t *vdip, FILE *fp,
 	    if (tps.tps_ports < 0) {
 		_vnadata_error(vdip, VNAERR_SYNTAX, "%s (line %d) error: "
 			"[Number of Ports] must appear before [Reference]",
+		    tps.tps_filename, tps.tps_line);
+		goto out;
+	    }
+	    if (reference != NULL) {
+		_vnadata_error(vdip, VNAERR_SYNTAX, "%s (line %d) error: "
+			"[Reference] may appear only once",
 		    tps.tps_filename, tps.tps_line);
 		goto out;
 	    }
